@@ -351,6 +351,18 @@ var wsAltsSmall = []string{"\n"}
 
 // spellSites lists the deviation sites of a token stream. small selects the reduced alphabet W'.
 func spellSites(toks []stok, small bool) []site {
+	if small {
+		return spellSitesMode(toks, 1)
+	}
+	return spellSitesMode(toks, 0)
+}
+
+// wsAltsLong: long gaps (a condition wrapped onto a deeply indented continuation line)
+var wsAltsLong = []string{strings.Repeat(" ", 40), "\n" + strings.Repeat("\t", 12) + strings.Repeat(" ", 30), strings.Repeat("\n", 70)}
+
+// spellSitesMode: mode 0 full whitespace alphabet, 1 reduced, 2 long gaps
+func spellSitesMode(toks []stok, mode int) []site {
+	small := mode == 1
 	var sites []site
 	inVerbatim := false
 	// bracket matching for trailing commas
@@ -413,6 +425,9 @@ func spellSites(toks []stok, small bool) []site {
 			if small {
 				alts = wsAltsSmall
 			}
+			if mode == 2 {
+				alts = wsAltsLong
+			}
 			var a []string
 			for _, w := range alts {
 				if w != t.text {
@@ -453,6 +468,9 @@ func spellSites(toks []stok, small bool) []site {
 			a := []string{" ", "\n"}
 			if small {
 				a = []string{" "}
+			}
+			if mode == 2 {
+				a = wsAltsLong
 			}
 			sites = append(sites, site{1, i, a})
 		}
